@@ -1,0 +1,38 @@
+//go:build verif
+
+// Machine-checked contracts for package originstorage (comment-only; read by /verif/govc).
+// Property C14: no piece index chosen by a remote peer makes an origin torrent panic or read
+// outside the blob.
+
+package originstorage
+
+//@ specfunc otwf(t *Torrent) bool = t != nil && t.metaInfo != nil && t.metaInfo.info.PieceLength > 0 && t.metaInfo.info.Length >= 0 && t.metaInfo.info.Length <= 4611686018427387904 && len(t.metaInfo.info.PieceSums) == npieces(t.metaInfo.info.Length, t.metaInfo.info.PieceLength)
+
+//@ func Torrent.NumPieces
+//@   requires t != nil && t.metaInfo != nil
+//@   nopanic
+//@   ensures result == len(t.metaInfo.info.PieceSums)
+
+//@ func Torrent.PieceLength
+//@   requires otwf(t)
+//@   nopanic
+//@   ensures out_of_range: (pi < 0 || pi >= len(t.metaInfo.info.PieceSums)) ==> result == 0
+//@   ensures layout: 0 <= pi && pi < len(t.metaInfo.info.PieceSums) ==> result == plen(t.metaInfo.info.Length, t.metaInfo.info.PieceLength, pi)
+
+// GetPieceReader: a reader is built only for an index inside the torrent; its offset and length are
+// then those of that piece, which the metainfo geometry places inside the blob.
+//@ func Torrent.GetPieceReader
+//@   requires otwf(t)
+//@   nopanic
+//@   assert index_in_torrent: at piecereader.NewFileReader#0 :: 0 <= pi && pi < len(t.metaInfo.info.PieceSums)
+//@   ensures rejected: (pi < 0 || pi >= len(t.metaInfo.info.PieceSums)) ==> result1 != nil
+//@   ensures served: result1 == nil ==> result0 != nil
+
+// An origin torrent is complete: writes are refused whatever the index.
+//@ func Torrent.WritePiece
+//@   requires t != nil
+//@   nopanic
+//@   ensures result != nil
+
+//@ func Torrent.HasPiece
+//@   nopanic
